@@ -14,6 +14,8 @@ CONSTANTS
   SweepOnly = FALSE
   SweepA <- SweepAs
   SweepB <- SweepBs
+  SweepKinds <- AllSweeps
+  ValuePos <- AllPos
   Sim = TRUE
 INIT Init
 NEXT Next
